@@ -68,6 +68,42 @@ theorem distinct_events_distinct_ids (env : Env) (val : Str) (e₁ e₂ : EthEve
   rw [int64OfBig_id _ (by omega) hn₁.2, int64OfBig_id _ (by omega) hn₂.2] at this
   exact ⟨this.1, by simpa using this.2⟩
 
+/-! ### the content the chain derives from the relayed claim -/
+
+/-- The content packed from a relayed claim carries the original event's recipient, amount, token, claim type
+    and symbol — the symbol exactly as the relayer produced it (lower-cased for locks, table-mapped for burns),
+    nothing trimmed, folded or otherwise normalised on the way. -/
+theorem content_faithful (env : Env) (val : Str) (ev : EthEvent) (c : Claim)
+    (h : ethToClaim env val ev = .ok c) : contentFaithful env ev (oracleContent c) = true := by
+  obtain ⟨r, hr, _, _, _, rfl⟩ := ethToClaim_ok env val ev c h
+  simp [contentFaithful, oracleContent, hr]
+
+/-- … and it is the expected content, so two events with the same content agree on all of these -/
+theorem content_expected (env : Env) (val : Str) (ev : EthEvent) (c : Claim)
+    (h : ethToClaim env val ev = .ok c) : expectedContent env ev = some (oracleContent c) := by
+  obtain ⟨r, hr, _, _, _, rfl⟩ := ethToClaim_ok env val ev c h
+  simp [expectedContent, oracleContent, hr]
+
+theorem content_distinct (env : Env) (val : Str) (e₁ e₂ : EthEvent) (c₁ c₂ : Claim)
+    (h₁ : ethToClaim env val e₁ = .ok c₁) (h₂ : ethToClaim env val e₂ = .ok c₂)
+    (hk : oracleContent c₁ = oracleContent c₂) :
+    claimSymbol env e₁ = claimSymbol env e₂ ∧ e₁.value = e₂.value ∧ e₁.token = e₂.token ∧ e₁.claimType = e₂.claimType := by
+  have a := content_expected env val e₁ c₁ h₁
+  have b := content_expected env val e₂ c₂ h₂
+  obtain ⟨_, _, _, _, _, rfl⟩ := ethToClaim_ok env val e₁ c₁ h₁
+  obtain ⟨_, _, _, _, _, rfl⟩ := ethToClaim_ok env val e₂ c₂ h₂
+  simp only [oracleContent, Content.mk.injEq, addrString, List.cons.injEq, true_and] at hk
+  exact ⟨hk.2.2.1, hk.2.1, hk.2.2.2.1, hk.2.2.2.2⟩
+
+/-- padded symbols stay padded: "ETH " locks as "eth " (not "eth"), and "USDT" / "USDT " are different contents -/
+example :
+    let env : Env := { bech32 := fun _ => some (str "addr"), bech32Val := fun _ => none, lower := id, table := [] }
+    let mk (sym : Str) : EthEvent :=
+      { to := str "x", symbol := sym, chainId := 1, value := 5, nonce := 1, claimType := ctLock,
+        bridge := List.replicate 40 'a', sender := List.replicate 40 'b', token := List.replicate 40 '1' }
+    (expectedContent env (mk (str "ETH "))).map (·.symbol) = some (str "eth ") ∧
+    expectedContent env (mk (str "USDT")) ≠ expectedContent env (mk (str "USDT ")) := by decide
+
 /-! ### the batch the relayer actually submits (`handleEthereumEvent` → `RelayToCosmos`) -/
 
 /-- For every batch of events (any length, any mix of lock / burn / malformed events at any position): the
